@@ -179,10 +179,10 @@ def scan (c : Ctx) : List Str → Nat → List Pos → List SAddr
     | (.enter, seen') => scan c seen' 0 rest
 
 /-- The addresses the search has to report for document `d`, in order.  A scalar document has the
-single position "root". -/
+single position "root" (a null document is no document). -/
 def found (c : Ctx) (d : SNode) : List SAddr :=
   match d with
-  | .scalar _ v => if c.o.searchValues && c.μ v then [[]] else []
+  | .scalar _ v => if v ≠ .null ∧ (c.o.searchValues && c.μ v) = true then [[]] else []
   | _ => scan c [] 0 (flat d [])
 
 end Spec
